@@ -176,22 +176,38 @@ func runC10Reuse(a hx.Args) string {
 		if n < 0 || i+n > a.Len() {
 			return "badinput"
 		}
-		ms := make([]move.Move, n)
+		end := i + n
+		fen := rootFEN
+		if kind >= 3 {
+			// the payload starts with the board of the command's own root
+			bx, j := a.Board(i)
+			if j > end {
+				return "badinput"
+			}
+			fen, i = bx.FEN(), j
+		}
+		ms := make([]move.Move, end-i)
 		for j := range ms {
 			ms[j] = move.Move(a.U64(i + j))
 		}
-		i += n
+		i = end
 		strs := c10Strs(ms)
+		fenCmd := func() string {
+			line := "position fen " + fen
+			if len(strs) > 0 {
+				line += " moves " + strings.Join(strs, " ")
+			}
+			return line
+		}
 		switch kind {
 		case 1:
 			s.cmd("ucinewgame")
 			s.cmd(c10Position(rootFEN, strs))
-		case 2:
-			line := "position fen " + rootFEN
-			if len(strs) > 0 {
-				line += " moves " + strings.Join(strs, " ")
-			}
-			s.cmd(line)
+		case 2, 3:
+			s.cmd(fenCmd())
+		case 4:
+			s.cmd("ucinewgame")
+			s.cmd(fenCmd())
 		default:
 			s.cmd(c10Position(rootFEN, strs))
 		}
@@ -450,14 +466,55 @@ func c10Variant(rng *hx.Rng, a []move.Move, tail int) ([]move.Move, string) {
 	return nil, ""
 }
 
+// c10FenRoots: roots for `position fen X`: valid, accepted by the UCI gate, no en-passant square
+// (a dead en-passant square is the recorded finding fen-ep-flag and is exercised by stream c10).
+var c10FenRootsCache []string
+
+func c10FenRoots() []string {
+	if c10FenRootsCache != nil {
+		return c10FenRootsCache
+	}
+	for _, r := range posgen.Roots() {
+		f := strings.Fields(r)
+		if len(f) < 4 || f[3] != "-" || r == StartPosFEN {
+			continue
+		}
+		if newC10Hist(r, "") == nil {
+			continue
+		}
+		c10FenRootsCache = append(c10FenRootsCache, r)
+	}
+	// the start placement with other rights / clocks: every start-position line is legal here too
+	c10FenRootsCache = append(c10FenRootsCache,
+		"rnbqkbnr/pppppppp/8/8/8/8/PPPPPPPP/RNBQKBNR w - - 7 12",
+		"rnbqkbnr/pppppppp/8/8/8/8/PPPPPPPP/RNBQKBNR w Kq - 0 30")
+	return c10FenRootsCache
+}
+
+// c10LegalFrom: is the line (as UCI text) legal from root?
+func c10LegalFrom(root string, strs []string) []move.Move {
+	h := newC10Hist(root, "")
+	if h == nil {
+		return nil
+	}
+	for _, s := range strs {
+		if !h.playStr(s) {
+			return nil
+		}
+	}
+	return h.ms
+}
+
 func genC10Reuse(rng *hx.Rng, n int, tier string, emit func(hx.Input)) {
 	cnt := 0
 	type cmd struct {
 		kind int
 		ms   []move.Move
 		how  string
+		root string // kinds 3, 4
 	}
-	emitCase := func(cmds []cmd) {
+	kindText := []string{" | position startpos moves", " | ucinewgame; position startpos moves", " | position fen <startpos> moves"}
+	emitCase := func(cmds []cmd, pattern string) {
 		if cnt >= n {
 			return
 		}
@@ -465,62 +522,135 @@ func genC10Reuse(rng *hx.Rng, n int, tier string, emit func(hx.Input)) {
 		var sb strings.Builder
 		sb.WriteString("reused driver:")
 		tags := []string{}
-		nontrivial := false
+		if pattern != "" {
+			tags = append(tags, "pattern="+pattern)
+		}
+		nontrivial := pattern != ""
 		for i, c := range cmds {
-			in.Int(c.kind, len(c.ms))
+			if c.kind >= 3 {
+				rb := c10Root(c.root)
+				in.Int(c.kind, len(strings.Fields((&hx.Nums{}).BoardIn(rb).String()))+len(c.ms))
+				in.BoardIn(rb)
+				if c.kind == 4 {
+					sb.WriteString(" | ucinewgame; position fen " + c.root + " moves")
+				} else {
+					sb.WriteString(" | position fen " + c.root + " moves")
+				}
+			} else {
+				in.Int(c.kind, len(c.ms))
+				sb.WriteString(kindText[c.kind])
+			}
 			for _, m := range c.ms {
 				in.U(uint64(m))
-			}
-			sb.WriteString([]string{" | position startpos moves", " | ucinewgame; position startpos moves", " | position fen <startpos> moves"}[c.kind])
-			for _, m := range c.ms {
 				sb.WriteString(" " + m.String())
 			}
-			if i > 0 {
+			if i > 0 && c.how != "" {
 				tags = append(tags, "then-"+c.how)
 				if c.kind == 0 && cmds[i-1].kind != 2 && (c.how == "transposed" || c.how == "replaced") {
 					nontrivial = true
 				}
 			}
 			if c.kind != 0 {
-				tags = append(tags, []string{"", "ucinewgame", "position-fen"}[c.kind])
+				tags = append(tags, []string{"", "ucinewgame", "position-fen-startpos", "position-fen-other", "ucinewgame+position-fen-other"}[c.kind])
 			}
 		}
 		emit(hx.Input{In: in.String(), Desc: sb.String(), Tags: tags, NonTrivial: nontrivial})
 		cnt++
 	}
-	// the textbook case: same final position, different game
+	fenRoots := c10FenRoots()
+	extend := func(root string, line []move.Move, tail int) []move.Move {
+		h := newC10Hist(root, "")
+		for _, m := range line {
+			h.play(m)
+		}
+		for t := 0; t < tail && h.randomMove(rng, 30, 40); t++ {
+		}
+		return h.ms
+	}
+	fenCmd := func(kind int, plies int) cmd {
+		x := fenRoots[rng.Intn(len(fenRoots))]
+		var ms []move.Move
+		if plies > 0 {
+			if h := c10Line(rng, x, plies); h != nil {
+				ms = h.ms
+			}
+		}
+		return cmd{kind: kind, ms: ms, how: "fen", root: x}
+	}
+	// the deliberate patterns around a FEN load between start-position lists
+	patterns := func() {
+		ha := c10Line(rng, StartPosFEN, 2+rng.Intn(16))
+		if ha == nil || len(ha.ms) < 2 {
+			return
+		}
+		a := ha.ms
+		switch rng.Intn(5) {
+		case 0: // A ; fen X ; A+tail
+			emitCase([]cmd{{0, a, "", ""}, fenCmd(3, 0), {0, extend(StartPosFEN, a, 1+rng.Intn(6)), "continuation-of-first", ""}}, "A;fenX;A+tail")
+		case 1: // A ; fen X moves .. ; A
+			emitCase([]cmd{{0, a, "", ""}, fenCmd(3, 1+rng.Intn(12)), {0, a, "identical-to-first", ""}}, "A;fenX-moves;A")
+		case 2: // A ; ucinewgame ; fen X ; A+tail
+			emitCase([]cmd{{0, a, "", ""}, fenCmd(4, rng.Intn(6)), {0, extend(StartPosFEN, a, 1+rng.Intn(6)), "continuation-of-first", ""}}, "A;ucinewgame;fenX;A+tail")
+		case 3: // fen X moves B ; startpos moves B+tail  (B legal from both roots)
+			for try := 0; try < 20; try++ {
+				x := fenRoots[rng.Intn(len(fenRoots))]
+				if rng.Chance(0.6) {
+					x = fenRoots[len(fenRoots)-1-rng.Intn(2)]
+				}
+				hb := c10Line(rng, x, 1+rng.Intn(12))
+				if hb == nil || len(hb.ms) == 0 {
+					continue
+				}
+				if b := c10LegalFrom(StartPosFEN, c10Strs(hb.ms)); b != nil {
+					emitCase([]cmd{{3, hb.ms, "", x}, {0, extend(StartPosFEN, b, 1+rng.Intn(6)), "same-text-other-root", ""}}, "fenX-moves-B;B+tail")
+					return
+				}
+			}
+		default: // A ; fen X ; A+tail ; fen Y moves .. ; A+tail+tail
+			a2 := extend(StartPosFEN, a, 1+rng.Intn(4))
+			a3 := extend(StartPosFEN, a2, 1+rng.Intn(4))
+			emitCase([]cmd{{0, a, "", ""}, fenCmd(3, rng.Intn(5)), {0, a2, "continuation-of-first", ""}, fenCmd(3, rng.Intn(5)), {0, a3, "continuation-of-first", ""}}, "A;fenX;A+t;fenY;A+t+t")
+		}
+	}
+	// the textbook cases first
 	a0 := c10ScriptLine(StartPosFEN, "g1f3 g8f6 f3g1 f6g8")
 	b0 := c10ScriptLine(StartPosFEN, "b1c3 g8f6 c3b1 f6g8 g1f3")
-	emitCase([]cmd{{0, a0, ""}, {0, b0, "transposed"}})
-	emitCase([]cmd{{0, a0, ""}, {1, b0, "transposed"}})
-	emitCase([]cmd{{0, b0, ""}, {0, c10ScriptLine(StartPosFEN, "g1f3 g8f6 f3g1 f6g8 g1f3 b8c6"), "replaced"}})
+	emitCase([]cmd{{0, a0, "", ""}, {0, b0, "transposed", ""}}, "")
+	emitCase([]cmd{{0, a0, "", ""}, {1, b0, "transposed", ""}}, "")
+	emitCase([]cmd{{0, b0, "", ""}, {0, c10ScriptLine(StartPosFEN, "g1f3 g8f6 f3g1 f6g8 g1f3 b8c6"), "replaced", ""}}, "")
+	e0 := c10ScriptLine(StartPosFEN, "e2e4 e7e5")
+	emitCase([]cmd{{0, e0, "", ""}, {3, nil, "fen", "r3k2r/p1ppqpb1/bn2pnp1/3PN3/1p2P3/2N2Q1p/PPPBBPPP/R3K2R w KQkq - 0 1"},
+		{0, c10ScriptLine(StartPosFEN, "e2e4 e7e5 g1f3"), "continuation-of-first", ""}}, "A;fenX;A+tail")
+	emitCase([]cmd{{0, e0, "", ""}, {3, nil, "fen", "4k3/8/8/8/8/8/8/4K2R w K - 0 1"},
+		{0, c10ScriptLine(StartPosFEN, "e2e4 e7e5 g1f3 b8c6"), "continuation-of-first", ""}}, "A;fenX;A+tail")
 	for cnt < n {
+		if rng.Chance(0.45) {
+			patterns()
+			continue
+		}
 		L := 2 + rng.Intn(30)
 		ha := c10Line(rng, StartPosFEN, L)
 		if ha == nil || len(ha.ms) < 2 {
 			continue
 		}
-		cmds := []cmd{{0, ha.ms, ""}}
+		cmds := []cmd{{0, ha.ms, "", ""}}
 		prev := ha.ms
 		for k := 1 + rng.Intn(3); k > 0; k-- {
 			var next []move.Move
 			how := ""
 			switch x := rng.Intn(100); {
-			case x < 60:
+			case x < 50:
 				next, how = c10Variant(rng, prev, rng.Intn(10))
-			case x < 72:
+			case x < 60:
 				if h := c10Line(rng, StartPosFEN, 1+rng.Intn(40)); h != nil {
 					next, how = h.ms, "unrelated"
 				}
-			case x < 84:
+			case x < 72:
 				// a continuation: the honest use of the command
-				h := newC10Hist(StartPosFEN, "")
-				for _, m := range prev {
-					h.play(m)
-				}
-				for t := 1 + rng.Intn(6); t > 0 && h.randomMove(rng, 30, 40); t-- {
-				}
-				next, how = h.ms, "continuation"
+				next, how = extend(StartPosFEN, prev, 1+rng.Intn(6)), "continuation"
+			case x < 84:
+				cmds = append(cmds, fenCmd(3+rng.Intn(2), rng.Intn(10)))
+				continue
 			default:
 				next, how = prev[:rng.Intn(len(prev))], "shorter"
 			}
@@ -531,13 +661,13 @@ func genC10Reuse(rng *hx.Rng, n int, tier string, emit func(hx.Input)) {
 			if rng.Chance(0.15) {
 				kind = 1 + rng.Intn(2)
 			}
-			cmds = append(cmds, cmd{kind, next, how})
+			cmds = append(cmds, cmd{kind, next, how, ""})
 			if len(next) >= 2 {
 				prev = next
 			}
 		}
 		if len(cmds) >= 2 {
-			emitCase(cmds)
+			emitCase(cmds, "")
 		}
 	}
 }
